@@ -273,6 +273,47 @@ static void av_case(uint64_t idx, void *ctx)
     mc_nontrivial();
     mc_outcome(mc_hash(EXP, sizeof(ev_t) * (size_t) (NEXP < 8 ? NEXP : 8)) + (uint64_t) NEXP);
 }
+/* ---- the same while a context is open (an earlier file left [begin B] unclosed): the line's own context is opened inside B and closed again;
+ * a line whose text is "end" closes its own context with that word and the enclosing one with the end of the line (pinned) - every end call goes
+ * to the handler of the context that is innermost at that moment */
+static const char *AV2[] = { "A end", "A x", "B end", "A", "B y" };
+#define NAV2 ((int) (sizeof AV2 / sizeof AV2[0]))
+static void av2_desc(uint64_t idx, void *ctx, char *b, size_t n) { (void) ctx; snprintf(b, n, "file [begin B] [t1] (B stays open), then the line [%s] given outside a file%s, then the file [begin A] [t1] [end]", AV2[idx % NAV2], idx / NAV2 ? " twice" : ""); }
+static void av2_case(uint64_t idx, void *ctx)
+{
+    (void) ctx; int k = (int) (idx % NAV2), reps = (int) (idx / NAV2) + 1;
+    const char *shape = "line outside a file while a context is open"; mc_set_shape(shape);
+    char data[200]; size_t o = (size_t) snprintf(data, sizeof data, "<verif-1.0>\nbegin B\nt1\n");
+    char first[300]; snprintf(first, sizeof first, "%s/argv0-%d.cfg", scratch(), (int) getpid());
+    write_file(first, data, o);
+    o = (size_t) snprintf(data, sizeof data, "<verif-1.0>\nbegin A\nt1\nend\n");
+    snprintf(g_main, sizeof g_main, "%s/argv-%d.cfg", scratch(), (int) getpid());
+    write_file(g_main, data, o);
+    setup();
+    g_env_on = 1; g_ledger_on = 1; g_allow_fork = 0;
+    spif_charptr_t r = spifconf_parse((spif_charptr_t) first, NULL, NULL); if (r) FREE(r);
+    m_line(L_BEGIN_B); m_line(L_T1);
+    for (int rep = 0; rep < reps; rep++) {
+        char *b = malloc(CONFIG_BUFF); strcpy(b, AV2[k]);
+        spifconf_parse_line(NULL, (spif_charptr_t) b); free(b);
+        m_line(AV2[k][0] == 'A' ? L_BEGIN_A : L_BEGIN_B);
+        const char *sp = strchr(AV2[k], ' ');
+        if (sp && !strcmp(sp + 1, "end")) m_line(L_END);
+        else if (sp) { STK[DEPTH].state = m_call(STK[DEPTH].ctx, 'T', sp + 1, STK[DEPTH].state); }
+        m_line(L_END);                                  /* the end of the line closes whatever is innermost now */
+        if (fstate_idx != 0) { FAIL("spifconf_parse_line", "model:stacks-not-restored", shape, "after the line \"%s\": file stack index %d", AV2[k], fstate_idx); fstate_idx = 0; }
+    }
+    m_line(L_BEGIN_A); m_line(L_T1); m_line(L_END);
+    r = spifconf_parse((spif_charptr_t) g_main, NULL, NULL);
+    g_env_on = 0; g_ledger_on = 0; g_allow_fork = 1;
+    if (!r) FAIL("spifconf_parse", "model:return", shape, "returned NULL"); else FREE(r);
+    g_skip_state = 1;
+    compare_and_finish(shape, DEPTH);
+    g_skip_state = 0;
+    unlink(first);
+    mc_nontrivial();
+    mc_outcome(mc_hash(EXP, sizeof(ev_t) * (size_t) (NEXP < 8 ? NEXP : 8)) + (uint64_t) NEXP);
+}
 /* ---- the file is found through a search path, in a directory that is not the current one, and includes a file by a relative name
  * (the parser works from the directory of the file it found and returns to where it was); and the name in the magic line follows
  * the program name as it is when a file is opened */
@@ -337,6 +378,7 @@ int main(int argc, char **argv)
     mc_e2_level("long_lines", 61447, 60, ll_case, ll_desc, NULL);
     mc_e2_level("search_path_and_name", 1, 6, sp_case, sp_desc, NULL);
     for (g_n = 1; g_n <= 2; g_n++) mc_e2_level("argv_lines", g_n, mc_words_of_len(NAV, g_n), av_case, av_desc, NULL);
+    mc_e2_level("argv_lines_in_open_context", 2, (uint64_t) NAV2 * 2, av2_case, av2_desc, NULL);
     for (g_n = 0; g_n <= N; g_n++) if (!mc_e2_level("files", g_n, mc_words_of_len(NKIND, g_n) * 2, f_case, f_desc, NULL)) break;
     return mc_finish();
 }
